@@ -139,7 +139,7 @@ namespace xtl
     template <class T0, class T1, class... REST>
     struct promote_type<std::complex<T0>, std::complex<T1>, REST...>
     {
-        using type = std::complex<typename promote_type<T0, T1, REST...>::type>;
+        using type = typename promote_type<std::complex<typename promote_type<T0, T1>::type>, REST...>::type;
     };
 
     /**
